@@ -358,7 +358,7 @@ def build(spec, env):
         return Case(cmds, check, 2, ('cong', an, dn, mode, d == 0))
     raise ValueError(kind)
 
-HOOKS = {30: 'sb_div_qr n1==d1 special case', 31: 'sb_div_qr add-back', 32: 'udiv_qr_3by2 second adjustment', 33: 'tdiv_qr quotient_too_large fix-up'}
+HOOKS = {30: 'sb_div_qr n1==d1 special case', 31: 'sb_div_qr add-back', 32: 'udiv_qr_3by2 second adjustment', 33: 'tdiv_qr quotient_too_large fix-up', 34: 'inv_divappr_q_n multiply-out correction'}
 def post(tier, agg, cov):
     hits = agg.get('hits', {})
     cov['rare_branches_observed'] = {HOOKS[k]: hits.get(k, 0) for k in HOOKS}
